@@ -57,11 +57,17 @@ impl Ledger {
     /// at most `cap` bytes: evict oldest first until it fits
     pub fn dg_arrived(&mut self, side_idx: usize, id: Option<u64>, len: usize, cap: usize) {
         let q = &mut self.dg_model[side_idx];
-        let mut used: usize = q.iter().map(|x| x.1).sum();
-        while used + len > cap {
+        // every buffered datagram occupies at least one byte of the buffer (empty datagrams included)
+        let cost = len.max(1);
+        if cost > cap {
+            self.dg_evicted += 1;
+            return;
+        }
+        let mut used: usize = q.iter().map(|x| x.1.max(1)).sum();
+        while used + cost > cap {
             match q.pop_front() {
                 Some((_, l)) => {
-                    used -= l;
+                    used -= l.max(1);
                     self.dg_evicted += 1;
                 }
                 None => break,
